@@ -1,7 +1,8 @@
 /-
   Driver for the rekey bookkeeping model (C10).  One request = one whole trace:
     run <rp> <rb> <op> <ob> <ops…>     ops: s<len> r<len> o (set_outbound) i (set_inbound) t (loop top) k (peer KEXINIT)
-  reply: one character per op (0 nothing pending, 1 rekey requested, E overflow error raised; ops after an
+    readall <need 0/1> <check_rekey 0/1> <n> <events: d<k> | t …>   → ok <events used> | rekey <bytes lost> | eof <bytes got>
+  reply of run: one character per op (0 nothing pending, 1 rekey requested, E overflow error raised; ops after an
   error are not executed and print E), then
   <sentP> <sentB> <recvP> <recvB> <ovP> <ovB> <initCount> <inKex> <kexInits>
 -/
@@ -23,8 +24,20 @@ def runTrace (L : Limits) (ops : List Op) : String :=
   let b := fun (x : Bool) => if x then "1" else "0"
   s!"{String.ofList fl.reverse} {s.sentPackets} {s.sentBytes} {s.recvPackets} {s.recvBytes} {s.ovPackets} {s.ovBytes} {s.initCount} {b s.inKex} {s.kexInits}"
 
+def parseEv (t : String) : Option SockEv :=
+  if t == "t" then some .timeout else if t.startsWith "d" then (t.drop 1).toNat?.map .data else none
+
+def showRead : ReadResult → String
+  | .ok u => s!"ok {u}"
+  | .needRekey l => s!"rekey {l}"
+  | .eof g => s!"eof {g}"
+
 def stepLine (line : String) : String :=
   match words line with
+  | "readall" :: need :: check :: n :: evs =>
+    match need.toNat?, check.toNat?, n.toNat?, evs.mapM parseEv with
+    | some need, some check, some n, some evs => showRead (readAll (need == 1) (check == 1) n 0 0 evs)
+    | _, _, _, _ => "bad-op"
   | "run" :: rp :: rb :: op :: ob :: ops =>
     match rp.toNat?, rb.toNat?, op.toNat?, ob.toNat?, ops.mapM parseOp with
     | some rp, some rb, some op, some ob, some ops => runTrace ⟨rp, rb, op, ob⟩ ops
